@@ -78,9 +78,25 @@ FAMILIES = {
 PC_A, PC_B = 1400, 300
 
 
+TIME_LIMIT = 60          # seconds one TIME request (3–5 repeats of one parse) may take before the worker abandons it
+
+
 def micros(ans):
-    """a TIME answer in microseconds; a request the worker had to abandon after its 5 s alarm counts as 5 s"""
-    return int(ans.split(" ")[1]) if ans.startswith("OK ") else 5000000
+    """a TIME answer in microseconds; a request the worker had to abandon after TIME_LIMIT seconds counts as that long (a lower bound of its time)"""
+    return int(ans.split(" ")[1]) if ans.startswith("OK ") else TIME_LIMIT * 1000000
+
+
+def timed(reqs):
+    """TIME requests under their own request limit: the default 5 s limit covers ALL repeats of a request, so on a loaded machine a linear family was cut off at the
+    larger sizes and the cap itself looked like growth (false alarm of a thorough run next to 16 busy cores; corrected, see DESIGN §12.9)"""
+    import os
+    old = os.environ.get("MSQ_REQ_TIMEOUT")
+    os.environ["MSQ_REQ_TIMEOUT"] = str(TIME_LIMIT)
+    try:
+        return E.run_impl(reqs, jobs=1)
+    finally:
+        if old is None: os.environ.pop("MSQ_REQ_TIMEOUT", None)
+        else: os.environ["MSQ_REQ_TIMEOUT"] = old
 
 
 def counters(ans):
@@ -166,7 +182,7 @@ def run(ctx):
     for name, mk in FAMILIES.items():
         if name == "nesting" or name.startswith("nested-"):
             continue        # depth-bounded families: judged on the step counters
-        t = [micros(x) for x in E.run_impl(["TIME MYSQL %s 3" % E.enhex(mk(n)) for n in tsizes], jobs=1)]
+        t = [micros(x) for x in timed(["TIME MYSQL %s 3" % E.enhex(mk(n)) for n in tsizes])]
         expo = math.log(max(t[-1], 1) / max(t[0], 1)) / math.log(tsizes[-1] / tsizes[0])
         ctx.cov.setdefault("growth_exponent", {})[name] = round(expo, 2)
         if expo > 1.6 and t[-1] > 20000:
@@ -174,8 +190,11 @@ def run(ctx):
     for name in suspicious:
         confirmed = 0
         for _ in range(3):
-            t = [micros(x) for x in E.run_impl(["TIME MYSQL %s 5" % E.enhex(FAMILIES[name](n)) for n in tsizes], jobs=1)]
+            t = [micros(x) for x in timed(["TIME MYSQL %s 5" % E.enhex(FAMILIES[name](n)) for n in tsizes])]
             expo = math.log(max(t[-1], 1) / max(t[0], 1)) / math.log(tsizes[-1] / tsizes[0])
+            if t[0] >= TIME_LIMIT * 1000000:
+                ctx.count("timing:smallest-size-abandoned-inconclusive")          # no measurement at all: nothing to compare
+                continue
             confirmed += expo > 1.6
         if confirmed == 3:
             pfam.report(ctx, "superlinear-time", {"kind": "input", "entry": "parse_statements", "dialect": "MYSQL", "input": FAMILIES[name](tsizes[0]), "family": name, "sizes": tsizes,
